@@ -176,7 +176,7 @@ def r3(chk):
         if isinstance(t, ast.Subscript) and norm(t.value) == "self.tally_pool_means":
             p = norm(t.slice)
             if isinstance(v, ast.IfExp):
-                n0 = norm(v.test) == f'{dct}[{p}]["n"]==0' or norm(v.test) == f"{dct}[{p}]['n']==0"
+                n0 = aud.cond_equiv(Tx().cond(v.test), spec.cond_term(f"{dct}[{p}]['n'] == 0"))[0]
                 div = norm(v.orelse) in (f'{dct}[{p}]["tot"]/{dct}[{p}]["n"]',
                                          f"{dct}[{p}]['tot']/{dct}[{p}]['n']")
                 ok = n0 and div and norm(v.body) in ("np.nan", "numpy.nan", "math.nan")
